@@ -579,7 +579,7 @@ class rhf(wave_function):
         return ene2 + ene1 + ene0
 
     def _calc_rdm1(self, wave_data: dict) -> jax.Array:
-        rdm1 = jnp.array([wave_data["mo_coeff"] @ wave_data["mo_coeff"].T] * 2)
+        rdm1 = jnp.array([wave_data["mo_coeff"] @ wave_data["mo_coeff"].T.conj()] * 2)
         return rdm1
 
     @partial(jit, static_argnums=0)
